@@ -791,6 +791,8 @@ class Model:
             for s in range(num_scen):
                 drule = drule_list[s]
                 for linear, raffine, const in zip(linears, raffines, consts):
+                    if raffine is not None and raffine.shape[1] < num_rand:
+                        raffine = RoAffine._pad_raffine(raffine, num_rand)
                     left = linear[i, :num_var] @ drule + const[i]
                     if raffine is not None:
                         if isinstance(drule, RoAffine):
